@@ -135,7 +135,9 @@ def search(job):
                           ({"anyOf": [{"type": "string"}, {"maximum": 3}], "minimum": 20, "type": "integer"}, 12), ({"type": "string", "anyOf": [{"minimum": 20}, {"type": "null"}]}, 12),
                           ({"oneOf": [{"type": "integer"}, {"type": "number"}], "enum": [1, 2]}, 12), ({"not": {"type": "integer"}, "maximum": 3}, 12),
                           ({"properties": {"a": {"type": "string"}}, "required": ["b"], "oneOf": [{"type": "object"}, {"minProperties": 1}]}, {"a": 1}),
-                          ({"pattern": "("}, 1), ({"type": 12}, 1), ({"minimum": "x"}, 1)]:
+                          ({"pattern": "("}, 1), ({"type": 12}, 1), ({"minimum": "x"}, 1),
+                          # values that are no schemas at all: SchemaError comes first, before any validator object is built
+                          (12, 1), ([], 1), (None, 1), ("string", 1), (True, 1), (False, 1), ({"id": 12, "$id": 12}, 1)]:
             tried += 1
             try:
                 p = check_one(mods, d, schema, x)
